@@ -23,6 +23,7 @@ Tolerance (by design, see notes/C10.md): when the model's decoder accepts a body
 (primitive leaves are checked for tag/length only) and the real decoder rejects it, the
 ASAP's reject is taken as the application's answer ("leaf-reject", counted).
 """
+import collections
 from . import core
 from . import c10 as P
 from . import c10_impl as C
@@ -191,6 +192,35 @@ def is_unconf(octets):
     return bool(h) and h.get("type") == 1
 
 
+# ------------------------------------------------------------------ a faulty service helper
+
+HELPER_RAISES = {1: "RuntimeError", 2: "KeyError", 3: "ZeroDivisionError", 4: "TypeError", 5: "ExecutionError",
+                 6: "ParameterOutOfRange", 7: "OutOfResources", 8: "ValueError", 9: "AttributeError", 10: "ack"}
+
+
+def faulty_helper(app):
+    """do_ConfirmedPrivateTransferRequest for the device under test: raises by service number"""
+    from bacpypes import errors as E
+    from bacpypes.apdu import SimpleAckPDU
+
+    def helper(apdu):
+        n = apdu.serviceNumber
+        kind = HELPER_RAISES.get(n, "ack")
+        if kind == "ExecutionError":
+            raise E.ExecutionError("services", "serviceRequestDenied")
+        if kind == "ParameterOutOfRange":
+            raise E.ParameterOutOfRange("service number")
+        if kind == "OutOfResources":
+            raise E.OutOfResources("service number")
+        if kind == "ZeroDivisionError":
+            return 1 // 0
+        if kind == "ack":
+            return app.response(SimpleAckPDU(context=apdu))
+        raise {"RuntimeError": RuntimeError, "KeyError": KeyError, "TypeError": TypeError,
+               "ValueError": ValueError, "AttributeError": AttributeError}[kind]("helper failed")
+    return helper
+
+
 # ------------------------------------------------------------------ constructed histories
 
 def shapes(ctx, rng, T):
@@ -294,11 +324,23 @@ def shapes(ctx, rng, T):
             out.append(([m], "netmsg/%02x" % mt))
             out.append(([m, routed], "netmsg/%02x+routed" % mt))
             out.append(([bytes([1, 0x88]) + sadr + bytes([mt]) + b, routed], "netmsg/%02x-sadr+routed" % mt))
-    # 7. the same invoke id twice / many requests at one instant
+    # 7. every template as the encoder made it (must reach the application), the same invoke id twice,
+    #    many requests at one instant
+    for k in sorted(T):
+        if C.classify(T[k])[0] == "confirmed":
+            out.append(([T[k]], "valid/" + k))
     out.append(([T["rp"], T["rp"]], "dup/same-instant"))
     out.append(([T[k] for k in sorted(T)], "burst/all-templates"))
     out.append(([T[k] for k in sorted(T)] * 3, "burst/all-templates-x3"))
-    # 8. DeviceCommunicationControl: disable (with and without duration), then traffic
+    # 8. a service helper that raises: every exception family must still produce a reply
+    #    (Application.indication: ExecutionError -> Error, Reject/Abort families -> Reject/Abort PDU,
+    #    anything else -> Error operationalProblem).  The helper is installed by `shard` for these batches.
+    cpt = T["cpt-unsupported"]
+    for n in sorted(HELPER_RAISES):
+        f = cpt[:-1] + bytes([n])
+        out.append(([f], "helper/%d" % n))
+        out.append(([f, T["rp"]], "helper/%d+valid" % n))
+    # 9. DeviceCommunicationControl: disable (with and without duration), then traffic
     dcc_dis = T["dcc"][:6] + bytes.fromhex("0901") + bytes.fromhex("1901")
     dcc_dis_forever = T["dcc"][:6] + bytes.fromhex("1901")
     dcc_init = T["dcc"][:6] + bytes.fromhex("1902")
@@ -336,7 +378,12 @@ def shard(ctx, spec):
             used = 0
             reqs.append({"op": "reset", "cfg": rig.cfg()})
         used += 1
-        rec = rig.batch(frames)
+        if label.startswith("helper/"):
+            rig.dev.app.do_ConfirmedPrivateTransferRequest = faulty_helper(rig.dev.app)
+        try:
+            rec = rig.batch(frames)
+        finally:
+            rig.dev.app.__dict__.pop("do_ConfirmedPrivateTransferRequest", None)
         first = len(reqs)
         for fr, per in zip(frames, rec["per"]):
             ans = [dict(e) for e in per["entries"] if e["k"] not in ("silent", "other")]
@@ -364,6 +411,17 @@ def judge(ctx, stream, frames, label, pos, rec, mrep):
             ctx.fail("nontermination", case, "device still busy after the loop limit")
         if rec["residue"]["client"] or rec["residue"]["server"] or rec["residue"]["ssm_timers"]:
             ctx.fail("residue-transaction", case, "leftover after quiescence: %r" % (rec["residue"],), errors=rec["errors"])
+        if label.split("/")[0] in ("valid", "helper", "burst", "dup", "npci", "segresp") and label not in ("segresp/dup-request",):
+            allout = [o for per in rec["per"] for o in per["out"]] + rec["fin"]["out"]
+            hs = [C.decode_apdu_header(bytes.fromhex(o)) for (_d, o) in allout]
+            answered = collections.Counter(h.get("invoke") for h in hs if h and h.get("type") in C.REPLY_TYPES
+                                           and not (h.get("seg") and h.get("seq")))
+            owed = collections.Counter(inv for (kind, inv) in map(C.classify, frames) if kind == "confirmed")
+            for inv, n in sorted(owed.items()):
+                # each request completes before the next one of the same instant is looked at
+                if answered[inv] < (n if label.split("/")[0] in ("valid", "helper", "burst", "dup") else 1):
+                    ctx.fail("silence", case, "%d confirmed request(s) with invoke %d got %d replies" % (n, inv, answered[inv]),
+                             errors=rec["errors"])
     if rec["iam"] or rec["delivered"] != len(frames):
         ctx.count("model/skipped", "iam" if rec["iam"] else "undelivered")
         return
@@ -403,6 +461,41 @@ def judge(ctx, stream, frames, label, pos, rec, mrep):
         k = next((j for j, (a, b) in enumerate(zip(impl_view, model_view)) if core.canon(a) != core.canon(b)), None)
         ctx.disagree("model/" + stream, case, {"at": k, "impl": impl_view[k], "errors": rec["errors"]},
                      {"at": k, "model": model_view[k]})
+        reference_oracle(ctx, case, frames, rec, mrep)
+    if label.startswith("valid/"):
+        # a request produced by the library's own encoder must reach the application
+        e = rec["per"][0]["entries"]
+        if e and e[0].get("own"):
+            ctx.fail("valid-request-rejected", case, "the stack itself answered a valid %s request with %r" % (label[6:], e[0]))
+
+
+def reference_oracle(ctx, case, frames, rec, mrep):
+    """focused failing-input search on a disagreeing batch: evaluate the property's clauses on the
+    implementation's observations, with the (proved) model decoder as the reference for 'malformed'"""
+    out_all = [o for per in rec["per"] for o in per["out"]] + rec["fin"]["out"]
+    hdrs = [C.decode_apdu_header(bytes.fromhex(o)) for (_d, o) in out_all]
+    hdrs = [h for h in hdrs if h and h.get("type") in C.REPLY_TYPES]
+    for i, (fr, per, m) in enumerate(zip(frames, rec["per"], mrep)):
+        kind, inv = C.classify(fr)
+        if kind != "confirmed":
+            continue
+        mine = [h for h in hdrs if h.get("invoke") == inv]
+        mh = [C.decode_apdu_header(bytes.fromhex(o)) for (_d, o) in m["out"]]
+        mh = [h for h in mh if h and h.get("type") in C.REPLY_TYPES and h.get("invoke") == inv]
+        if mh and not mine and m["dcc"] == 0 and rec["mid"]["dcc"] == 0:
+            ctx.fail("silence", case, "confirmed request (invoke %d) got no reply; the model answers %r" % (
+                inv, C.REPLY_TYPES[mh[0]["type"]]), errors=rec["errors"])
+        elif mh and m["asked"] == 0 and mh[0]["type"] in (6, 7) and mine and mine[0]["type"] in (2, 3, 5):
+            ctx.fail("malformed-acknowledged", case,
+                     "request (invoke %d) whose parameters do not decode (model: %s reason %d) was answered with %s" % (
+                         inv, C.REPLY_TYPES[mh[0]["type"]], mh[0].get("reason", -1), C.REPLY_TYPES[mine[0]["type"]]))
+        elif mh and m["asked"] == 1 and per["entries"] and per["entries"][0].get("own") and mine and mine[0]["type"] in (6, 7) \
+                and not mh[0]["type"] in (6, 7):
+            ctx.fail("wellformed-refused", case, "request (invoke %d) was refused by the stack (%r)" % (inv, per["entries"][0]))
+    if rec["residue"]["client"] or rec["residue"]["server"] or rec["residue"]["ssm_timers"]:
+        ctx.fail("residue-transaction", case, "leftover after quiescence: %r" % (rec["residue"],), errors=rec["errors"])
+    if not rec["terminated"]:
+        ctx.fail("nontermination", case, "device still busy after the loop limit")
 
 
 def corpus_batches():
@@ -427,11 +520,16 @@ def run(ctx):
     core.run_shards(ctx, "harness.c10_model", "shard", specs(ctx))
 
 
-def replay_frames(ctx, frames):
-    """model-vs-implementation comparison of one batch (used by c10.replay)"""
+def replay_frames(ctx, frames, label="replay", stream="replay"):
+    """one batch on a fresh device: model-vs-implementation comparison and (for the batches of the
+    model-side streams) their property oracle (used by c10.replay)"""
     Device = C.build()
     rig = Rig(Device)
+    if label.startswith("helper/"):
+        rig.dev.app.do_ConfirmedPrivateTransferRequest = faulty_helper(rig.dev.app)
     rec = rig.batch(frames)
+    if not getattr(ctx, "model_ok", False):
+        raise core.Infra("model driver not built: cannot replay a model-side case")
     reqs = [{"op": "reset", "cfg": rig.cfg()}]
     for fr, per in zip(frames, rec["per"]):
         ans = [dict(e) for e in per["entries"] if e["k"] not in ("silent", "other")]
@@ -440,4 +538,4 @@ def replay_frames(ctx, frames):
         reqs.append({"op": "recv", "src": PEER_HEX, "hex": fr.hex(), "app": ans})
     reqs.append({"op": "quiesce"})
     replies = core.Driver("drv_c10").ask(reqs)
-    judge(ctx, "shapes", frames, "replay", None, rec, replies[1:])
+    judge(ctx, stream, frames, label, None, rec, replies[1:])
